@@ -404,3 +404,36 @@ def r8(ctx, R):
             R.check(not mine, f'{fn.name} :: the table `{name}` is not modified inside the loop that reads it (line {ln})', w, 'read-only use: {**table, **given} / table.copy()', mine)
     if not n:
         raise AnalysisError('C18.R8: the confirmed defaults table (bc_params_defaults in get_finite_difference_matrix) not found')
+
+
+@rule('C18', 'C18.R9', 'caches of stencils / assembled operators are keyed by EVERYTHING the cached object depends on (derivative, order, stencil type, boundary treatment, side) and a cached boundary stencil is only reused where the condition it was built under holds - an "assemble once" optimisation with a short key silently hands one problem the matrix of another', floor=2)
+def r9(ctx, R):
+    from .. import memo
+    memo.check(ctx, R, lambda m: m.relpath in (PH, 'pySDC/implementations/problem_classes/generic_ND_FD.py'), 'problem_helper.py + generic_ND_FD.py')
+
+
+@rule('C18', 'C18.R10', 'weights and offsets travel together: every caller of get_finite_difference_stencil takes BOTH returned arrays (the function sorts the offsets and reorders the weights with them) and uses the returned offsets afterwards - placing the sorted weights on the offsets it passed in puts them on the wrong diagonals for backward / upwind / unsorted stencils', floor=4)
+def r10(ctx, R):
+    repo = ctx.repo
+    n = 0
+    for m, ci, fn in repo.all_functions():
+        for s in walk_no_nested(fn):
+            calls = [c for c in ast.walk(s) if isinstance(c, ast.Call) and (ast.unparse(c.func).split('.')[-1] == 'get_finite_difference_stencil')] if isinstance(s, (ast.Assign, ast.Expr, ast.Return, ast.AugAssign)) else []
+            if not calls:
+                continue
+            n += 1
+            w = f'{m.relpath}:{(ci.name + ".") if ci else ""}{fn.name}'
+            R.fn(w)
+            ok, found = False, ast.unparse(s)[:70]
+            passed = next((k.value.id for k in calls[0].keywords if k.arg == 'steps' and isinstance(k.value, ast.Name)), None)
+            if isinstance(s, ast.Assign) and len(s.targets) == 1 and isinstance(s.targets[0], ast.Tuple) and len(s.targets[0].elts) == 2 and all(isinstance(e, ast.Name) for e in s.targets[0].elts) and s.value is calls[0]:
+                off = s.targets[0].elts[1].id
+                if passed is None:
+                    ok, found = True, f'offsets bound to `{off}` (none were passed in)'
+                else:
+                    later = [x for x in ast.walk(fn) if isinstance(x, ast.Name) and x.id == passed and isinstance(x.ctx, ast.Load) and x.lineno > s.end_lineno]
+                    ok = off == passed or not later
+                    found = f'offsets passed as `{passed}`, returned ones bound to `{off}`, `{passed}` read {len(later)} time(s) afterwards'
+            R.check(ok, f'{fn.name} :: the offsets returned with the weights are the ones used (line {s.lineno})', w, 'the offsets handed in are rebound to the returned (sorted) ones, or never read again', found)
+    if n < 4:
+        raise AnalysisError(f'C18.R10: only {n} callers of get_finite_difference_stencil found')
